@@ -489,7 +489,26 @@ fn finish(
     } else {
         cov.insert("exhaustive".into(), json!(false));
     }
-    cov.insert("observed".into(), json!(tot.counters));
+    // model coverage: counters named transition_<state>__<symbol> are summarised, not listed
+    let mut observed = tot.counters.clone();
+    let trans: Vec<String> = observed.keys().filter(|k| k.starts_with("transition_")).cloned().collect();
+    if !trans.is_empty() {
+        let mut states: HashSet<String> = HashSet::new();
+        let mut steps = 0u64;
+        for k in trans.iter() {
+            if let Some(rest) = k.strip_prefix("transition_") {
+                states.insert(rest.split("__").next().unwrap_or("").to_string());
+            }
+            steps += observed.remove(k).unwrap_or(0);
+        }
+        let mut st: Vec<String> = states.into_iter().collect();
+        st.sort();
+        cov.insert("states".into(), json!(st.len()));
+        cov.insert("transitions".into(), json!(trans.len()));
+        cov.insert("model_state_classes_visited".into(), json!(st));
+        cov.insert("model_steps_executed".into(), json!(steps));
+    }
+    cov.insert("observed".into(), json!(observed));
     cov.insert("observed_max".into(), json!(tot.maxes));
     cov.insert("worker_deaths".into(), json!(tot.deaths));
     cov.insert("inconclusive".into(), json!(tot.inconclusive + if wall_fired { 1 } else { 0 }));
